@@ -118,8 +118,8 @@ type agxModel struct {
 	lastRel   map[string]bool  // that newest sample has been released by a truncation
 	attempts  map[string]int
 	truncs    int
-	// gcRace[s]: a truncation collected series s (all its written samples older than mint, or none
-	// written) while the open appender held accepted-but-uncommitted samples for it. The code
+	// gcRace[s]: a truncation collected the in-memory series s (observed on the implementation)
+	// while the open appender held accepted-but-uncommitted samples for it. The code
 	// documents this as a known limitation (db.go getOrCreate); violations that need this
 	// precondition get their own signature suffix.
 	gcRace map[string]bool
@@ -196,14 +196,6 @@ func (m *agxModel) truncate(mint int64) {
 	for s, l := range m.last {
 		if l < mint {
 			m.lastRel[s] = true
-		}
-	}
-	for _, it := range m.pending {
-		if it.Kind == "ex" {
-			continue
-		}
-		if l, ok := m.last[it.S]; !ok || l < mint {
-			m.gcRace[it.S] = true
 		}
 	}
 }
@@ -512,6 +504,8 @@ func (x *agx) liveSeries() string {
 	return sb.String()
 }
 
+func (x *agx) isLive(s, live string) bool { return strings.Contains(live, s+"=") }
+
 func (x *agx) Apply(op string, check bool) (fail *vx.Fail) {
 	x.lastOp = op
 	x.walCache = nil
@@ -583,6 +577,13 @@ func (x *agx) Apply(op string, check bool) (fail *vx.Fail) {
 			return vx.Failf("op-error/truncate", "truncate(%d): %v", mint, err)
 		}
 		x.m.truncate(mint)
+		for _, it := range x.m.pending {
+			// observed precondition of the documented limitation: the in-memory series was
+			// collected by this truncation while the appender holds uncommitted samples for it
+			if lb, la := x.isLive(it.S, liveBefore), x.isLive(it.S, x.liveSeries()); lb && !la {
+				x.m.gcRace[it.S] = true
+			}
+		}
 		if mint > x.maxMint {
 			x.maxMint = mint
 		}
